@@ -39,6 +39,12 @@ def render_step(i, step):
         w.append("def p_g{0}(x):\n    return _t('p_g{0}')\ndef q_g{0}(result):\n    return _t('q_g{0}')\n".format(i))
         w.append("g{0} = icontract.require(p_g{0})(RAW)\n".format(i))
         return "".join(w)
+    if step["op"] == "postdecorate":
+        # the method m that an EXISTING class defines itself is decorated once more after the class has been created
+        w.append("def p_g{0}(x):\n    return _t('p_g{0}')\ndef q_g{0}(result):\n    return _t('q_g{0}')\n".format(i))
+        deco = "icontract.require(p_g{0})".format(i) if step["c"] == "pre" else "icontract.ensure(q_g{0})".format(i)
+        w.append("{1}.m = {2}(vars({1})['m'])\n".format(i, step["target"], deco))
+        return "".join(w)
     if step["op"] == "func":
         w.append("def p_g{0}(x):\n    return _t('p_g{0}')\n".format(i))
         w.append("def q_g{0}(result):\n    return _t('q_g{0}')\n".format(i))
@@ -87,7 +93,7 @@ def build(history):
 def cond_names(history):
     names = []
     for i, step in enumerate(history):
-        if step["op"] in ("func", "redecorate"):
+        if step["op"] in ("func", "redecorate", "postdecorate"):
             names += ["p_g{}".format(i), "q_g{}".format(i)]
         else:
             n = "X{}".format(i)
@@ -102,6 +108,8 @@ def observe(ns, history, upto, names):
     obs = {}
     for i in range(upto):
         step = history[i]
+        if step["op"] == "postdecorate":
+            continue
         if step["op"] in ("func", "redecorate"):
             g = ns["g{}".format(i)]
             chk = icontract._checkers.find_checker(g)
@@ -190,6 +198,27 @@ def steps_for(existing, tier):
     return out
 
 
+def postdecorate_steps(hist):
+    """Decorating, after the fact, the method m of an existing class that defines m itself."""
+    out = []
+    for i, s in enumerate(hist):
+        if s["op"] == "class" and s.get("m") in ("bare", "pre", "post", "prepostsnap"):
+            for c in ("pre", "post"):
+                out.append({"op": "postdecorate", "target": "X{}".format(i), "c": c})
+    return out
+
+
+def affected_by(history, step):
+    """The classes a post-hoc decoration may legitimately change: the target and its descendants."""
+    if step["op"] != "postdecorate":
+        return set()
+    hit = {step["target"]}
+    for i, s in enumerate(history):
+        if s["op"] == "class" and any(b in hit for b in s["bases"]):
+            hit.add("X{}".format(i))
+    return hit
+
+
 def roots(tier):
     out = []
     for inv in {"quick": ("C", "S", "A", "CS"), "tiny": ("C", "CS")}.get(tier, ("C", "S", "A", "CS", "SC", "-")):
@@ -232,7 +261,10 @@ def check_history(history, acc, tier):
              "root_inv": history[0].get("inv"), "bases_inv": "/".join(history[int(b[1:])].get("inv", "-") for b in step.get("bases", []))}
     nev = sum(len(v[1]) for v in after.values())
     acc.case(key, True, nev, status)
+    spared = affected_by(history[:k], step)
     for name in before:
+        if name in spared:
+            continue
         lb, pb = before[name]
         la, pa = after[name]
         if lb != la:
@@ -270,7 +302,7 @@ def work(args):
             nxt = []
             for hist in frontier:
                 existing = ["X{}".format(i) for i, s in enumerate(hist) if s["op"] == "class"]
-                for step in steps_for(existing, tier):
+                for step in steps_for(existing, tier) + postdecorate_steps(hist):
                     h2 = hist + [step]
                     valid = check_history(h2, acc, tier)
                     if valid and acc.nviol < 200:
@@ -287,7 +319,7 @@ def run(tier, t0):
     fine = []
     for alpha, depth in plans:
         for root in roots(alpha):
-            for step in steps_for(["X0"], alpha):
+            for step in steps_for(["X0"], alpha) + postdecorate_steps([root]):
                 fine.append((root, step, depth, alpha))
     # interleave heavy (depth 3) and light items so that the pool balances
     fine.sort(key=lambda it: json.dumps(it[1], sort_keys=True))
@@ -297,7 +329,8 @@ def run(tier, t0):
         rule="definition histories: contracted root class (invariant check_on in several combinations, method with pre/post/"
              "snapshot, property with postcondition) followed by every sequence of definition steps from: class with bases = DBC | "
              "one existing class | two existing classes in either order, invariant check_on, method contracts, property contracts; "
-             "decorated module-level function. Plans (alphabet, depth after root): {}. tiny alphabet: invariant in {{none, CALL, SETATTR}} x method in {{absent, pre, "
+             "decorated module-level function; decorating once more, after the fact, the method m of an existing class that defines it "
+             "(the target and its descendants may change, nobody else). Plans (alphabet, depth after root): {}. tiny alphabet: invariant in {{none, CALL, SETATTR}} x method in {{absent, pre, "
              "pre+post+snapshot}}; small (quick) alphabet: invariant in {{none, CALL, "
              "SETATTR, ALL}} x method in {{absent, pre, post, pre+post+snapshot, a shared helper function}}; every alphabet also "
              "re-decorates one shared plain function; full alphabet adds CALL+SETATTR, SETATTR+ALL, bare and "
@@ -323,7 +356,7 @@ def work_fine(args):
             nxt = []
             for hist in frontier:
                 existing = ["X{}".format(i) for i, s in enumerate(hist) if s["op"] == "class"]
-                for step in steps_for(existing, tier):
+                for step in steps_for(existing, tier) + postdecorate_steps(hist):
                     h2 = hist + [step]
                     if check_history(h2, acc, tier) and acc.nviol < 100:
                         nxt.append(h2)
